@@ -272,7 +272,7 @@ def _E_to_f(R, e, E):
     return R.mod2pi(F(2.) * R.f("atan", np.sqrt((F(1.) + e) / (F(1.) - e)) * R.f("tan", F(0.5) * E)))
 
 
-def flow_case(L, c, dec, front, prim):
+def flow_case(L, c, dec, front, prim, jm=None):
     """records the libm / pow values the front end's value flow and reb_particle_from_orbit_err ask for.
     Returns (coq_term_without_expected) for an accepted-classical decision `dec` (>= 1000)."""
     H = vlib.fhex
@@ -286,6 +286,9 @@ def flow_case(L, c, dec, front, prim):
     v = c["vals"]
     get = lambda n: F(v[n]) if n in c["names"] else F(0.)
     G = F(c["G"]); t = F(c["t"]); m = get("m"); pm = F(prim[0])
+    if jm is not None and jm[0] and front == "py":
+        m0, Mint = F(jm[1]), F(jm[2])
+        pm = m0 * (m + Mint) / Mint - m          # primary.m = particles[0].m*(self.m + interior_mass)/interior_mass - self.m
     afp = (dec // 100) % 10 == 1
     pe = (dec // 10) % 10
     an = dec % 10
@@ -329,8 +332,74 @@ def flow_case(L, c, dec, front, prim):
         R.f("cos", x); R.f("sin", x)
     two = "[" + "; ".join("(%s, %s, %s)" % (H(x), H(y), H(z)) for x, y, z in powt.values()) + "]"
     vals = [G, t, m] + [get(n) for n in ("a", "P", "e", "inc", "Omega", "omega", "pomega", "f", "M", "E", "l", "theta", "T")]
+    if jm is not None:
+        return "(flow_particle_jm %s %s %s %s %s %s %s %s %d %d %s)" % (
+            "true" if front == "py" else "false", "true" if jm[0] else "false", H(jm[1]), H(jm[2]), R.coq(), two, vlib.flist(prim),
+            "true" if afp else "false", pe, an, vlib.flist([float(x) for x in vals]))
     return "(flow_particle %s %s %s %s %s %d %d %s)" % ("true" if front == "py" else "false", R.coq(), two, vlib.flist(prim),
                                                        "true" if afp else "false", pe, an, vlib.flist([float(x) for x in vals]))
+
+
+def gen_flow_sim_cases(L, rng, n):
+    """the k-th planet (k = 1..4) added through rebound.Particle(simulation=sim, ...) to a simulation that already holds
+    k-1 massive planets: size as a or P; pericentre as omega / pomega / default; phase as f / M / E / l / theta / T / default;
+    jacobi_masses False / True; primary default (centre of mass) / explicit copy of particles[0] / explicit centre of mass.
+    Model: Flow.v (py_elements_jm) + from_orbit model at binary64.  Also returns library-only comparisons."""
+    rb = L.rebound
+    clib = L.clib
+    clib.reb_simulation_com.restype = rb.Particle
+    cases = []
+    for i in range(n):
+        k = 1 + i % 4
+        sim = rb.Simulation()
+        sim.G = rng.choice([1.0, 39.47841760435743])
+        sim.t = rng.choice([0.0, 3.5, -2.0])
+        sim.add(m=rng.uniform(0.5, 2))
+        for j in range(k - 1):
+            sim.add(m=10 ** rng.uniform(-4, -2.3), a=1.0 + 0.7 * j, e=rng.uniform(0, 0.1), f=rng.uniform(0, 6))
+        size = ("a", "P")[(i // 4) % 2]
+        per = rng.choice([None, "omega", "pomega"])
+        an = rng.choice([None, "f", "M", "E", "l", "theta", "T"])
+        jmf = bool((i // 8) % 2)
+        pmode = ("default", "particle", "com")[(i // 16) % 3]
+        names = ["m", size, "e", "inc", "Omega"] + [x for x in (per, an) if x]
+        vals = {"m": rng.choice([0.0, 10 ** rng.uniform(-5, -2.5)]), "e": rng.uniform(0, 0.6), "inc": rng.choice([rng.uniform(0, 3.1), 0.3]),
+                "Omega": rng.uniform(0, 6.28)}
+        vals[size] = rng.uniform(2.5, 6) if size == "a" else rng.uniform(3, 20)
+        if per: vals[per] = rng.uniform(0, 6.28)
+        if an: vals[an] = rng.uniform(-3, 9) if an != "T" else sim.t + rng.uniform(-4, 4)
+        kw = dict(vals)
+        if pmode == "particle":
+            prim_obj = sim.particles[0].copy()
+        elif pmode == "com":
+            prim_obj = clib.reb_simulation_com(ctypes.byref(sim))
+        else:
+            prim_obj = None
+        if prim_obj is not None:
+            kw["primary"] = prim_obj
+            prl = [prim_obj.m, prim_obj.x, prim_obj.y, prim_obj.z, prim_obj.vx, prim_obj.vy, prim_obj.vz]
+        else:
+            cm = clib.reb_simulation_com(ctypes.byref(sim))
+            prl = [cm.m, cm.x, cm.y, cm.z, cm.vx, cm.vy, cm.vz]
+        m0 = sim.particles[0].m
+        Mint = 0
+        for pp in sim.particles:
+            Mint += pp.m
+        try:
+            p = rb.Particle(simulation=sim, jacobi_masses=jmf, **kw)
+            exp = [0.0, p.m, p.x, p.y, p.z, p.vx, p.vy, p.vz]
+        except ValueError as ex:
+            import c11
+            code = [cd for pat, cd in c11.PY_ERR if str(ex).startswith(pat)]
+            exp = [float(code[0])] if code else [float("inf")]
+        pe = {None: 0, "omega": 1, "pomega": 2}[per]
+        ann = {None: 0, "f": 1, "M": 2, "E": 3, "l": 4, "theta": 5, "T": 6}[an]
+        dec = 1000 + (100 if size == "P" else 0) + 10 * pe + ann
+        c = {"G": sim.G, "t": sim.t, "names": names, "vals": vals}
+        term = flow_case(L, c, dec, "py", prl, jm=(jmf, m0, float(Mint)))
+        cases.append(("flow_py_nbody", term, exp, {"k": k, "size": size, "peri": per, "anomaly": an, "jacobi_masses": jmf,
+                                                    "primary": pmode, "vals": {a: float(b).hex() for a, b in vals.items()}}))
+    return cases
 
 
 # ----------------------------------------------------------------------------- orbits of particles that live in simulations
